@@ -367,8 +367,8 @@ func flight3Generate(
 		extensions = append(extensions, &extension12.ExtendedMasterSecret{})
 	}
 
-	if len(cfg.ServerName) > 0 {
-		extensions = append(extensions, &extension.ServerNameOffer{ServerName: cfg.ServerName})
+	if sniName := cfg.SNIName(); len(sniName) > 0 {
+		extensions = append(extensions, &extension.ServerNameOffer{ServerName: sniName})
 	}
 
 	if len(cfg.SupportedProtocols) > 0 {
